@@ -80,7 +80,13 @@ func (e *Env) buildConcPlan(id int) *c12proc {
 		}
 		for round := 0; round < 2; round++ { // every language at least twice: the second call takes the fast path
 			for _, l := range mine {
-				s := m.Enc(r.Bytes(ref.EntSizes[r.Intn(5)]), l)
+				ent := r.Bytes(ref.EntSizes[r.Intn(5)])
+				if r.Intn(3) == 0 {
+					for z := 0; z <= r.Intn(3); z++ {
+						ent[z] = 0 // leading zero bytes take the validator's padding branch
+					}
+				}
+				s := m.Enc(ent, l)
 				switch r.Intn(4) {
 				case 0:
 					w2 := strings.Split(s, ref.Sep(l))
@@ -161,6 +167,9 @@ func (e *Env) buildStressPlan(id, loops int) *c12proc {
 	l1, l2 := pairs[id%len(pairs)][0], pairs[id%len(pairs)][1]
 	size := ref.EntSizes[id%5]
 	e1, e2 := r.Bytes(size), r.Bytes(ref.EntSizes[(id+2)%5])
+	if id%2 == 0 {
+		e1[0], e2[0], e2[1] = 0, 0, 0 // leading zero bytes take the validator's padding branch
+	}
 	m1, m2 := m.Enc(e1, l1), m.Enc(e2, l2)
 	spaced := func(s string, l int) string { return strings.ReplaceAll(s, ref.Sep(l), " ") }
 	bad := strings.Split(spaced(m1, l1), " ")
